@@ -6,6 +6,7 @@ package pfcpiface
 
 import (
 	"encoding/binary"
+	"math"
 	"net"
 	"strconv"
 	"strings"
@@ -103,6 +104,13 @@ func maxUint64(x, y uint64) uint64 {
 
 // Returns the bandwidth delay product for a given rate in kbps and duration in ms.
 func calcBurstSizeFromRate(kbps uint64, ms uint64) uint64 {
+	// kbps * 1000 / 8 bytes per second for ms / 1000 seconds = kbps * ms / 8 bytes.
+	// Computed exactly whenever the product fits; the float64 path rounds down and could
+	// return one byte less than rate x duration (e.g. 695220 kbps for 18 ms).
+	if ms == 0 || kbps <= math.MaxUint64/ms {
+		return kbps * ms / 8
+	}
+
 	return uint64((float64(kbps) * 1000 / 8) * (float64(ms) / 1000))
 }
 
